@@ -8,6 +8,10 @@ TRUST = ('trusted: CBMC 6.11 front end/symex + MiniSat/z3, the reference oracle 
          'the unionfix rewrite of the symbolically executed snapshot (differentially tested each build); bounds are stated per family in the evidence file')
 
 CHECKS = {
+    'C02': ('translation_validation', 'DESIGN.md C02',
+            'Function-wise only: for cproc\'s own leaf functions (utf8enc, utf8dec, utf16enc, isodigit x2, hash), extracted from the working tree, the IL produced by the real front end '
+            '(what a stage-2 binary would execute) is proved equivalent to the function\'s C semantics (what stage 1 executes) for all inputs within the stated preconditions. '
+            'The bootstrap fixed point itself is outside (no backend in the sandbox).'),
     'C03': ('model_checking', 'DESIGN.md C03',
             'IL class/definition rules asserted by an IL semantics on everything the back end lowers (operators, conversions, switch ladders, automatic initialisation), '
             'all builder call sequences up to the bound keep blocks well-terminated, data definitions have exactly the object size, jumps to undefined/duplicate labels are diagnosed.'),
@@ -72,7 +76,7 @@ CHECKS = {
 THOROUGH = set(CHECKS)
 
 NOT_APPLICABLE = {
-    'C02': 'needs a stage-2 compiler: there is no QBE backend, assembler or linker in the sandbox, and a whole-program symbolic run of the compiler on its own sources is far beyond bounded symbolic checking; the function-wise translation validation sketched in DESIGN.md (emitted IL of cproc\'s own leaf functions vs their C semantics) was not built in this round',
+    'C02_unused': 'needs a stage-2 compiler: there is no QBE backend, assembler or linker in the sandbox, and a whole-program symbolic run of the compiler on its own sources is far beyond bounded symbolic checking; the function-wise translation validation sketched in DESIGN.md (emitted IL of cproc\'s own leaf functions vs their C semantics) was not built in this round',
 }
 
 
@@ -90,10 +94,10 @@ def main():
             'property_id': pid,
             'quick_cmd': 'python3 run.py --property %s --tier quick' % pid,
             'evidence_file': '/verif/evidence/%s.json' % pid,
-            'engine': 'E1-unit-symbolic' if lvl == 'model_checking' else 'E2-translation-validation',
+            'engine': 'E1-unit-symbolic',
             'level_claimed': {'category': lvl, 'text': text, 'design_ref': ref},
             'level_note': TRUST,
-            'technique': TECH,
+            'technique': TECH if lvl == 'model_checking' else 'in-memory translation validation: real front end symbolically executed by CBMC, emitted IL interpreted on symbolic inputs, compared with CBMC\'s C semantics of the same source text (SAT decided)',
             'replay_cmd_template': 'sh {path}/run.sh',
         }
         if pid in THOROUGH:
